@@ -286,7 +286,7 @@ def engine_s_main(tier, seed):
 def engine_s(tier, seed):
   env = dict(_os.environ)
   env.pop('VERIF_NO_CROSSHAIR', None)
-  env['PYTHONPATH'] = _ROOT + ':/repo'
+  env['PYTHONPATH'] = _ROOT + ':' + _os.environ.get('VERIF_REPO', '/repo')
   p = _subprocess.run([_os.path.join(_ROOT, '.venv', 'bin', 'python'), '-c',
                        'import json,sys; from vf.harness import c09; '
                        'sys.stdout.write("@@ENGINE@@" + json.dumps(c09.engine_s_main(%r, %d), default=repr))'
